@@ -1,7 +1,7 @@
 //! C06 — Paginated UTXO answers form one consistent snapshot.
 use super::common::*;
 use crate::engine::{Outcome, Property, Tier};
-use crate::hist::{history_brief, history_strategy, pick, History, World};
+use crate::hist::{history_brief, pick, History, World};
 use crate::model::OutPt;
 use crate::sut::{self, Filter, UtxosAnswer};
 use proptest::prelude::*;
